@@ -289,7 +289,11 @@ def sidereal_points(rng, n):
     pts = []
     for _ in range(n):
         r = rng.random()
-        if r < 0.5: j = rng.uniform(0.0, 5.4e6)
+        if r < 0.4: j = rng.uniform(0.0, 5.4e6)
+        elif r < 0.5:
+            # log-uniform offsets of 0.03 ms .. 90 s before/after 0h UT (and 12h): a shortcut 'this is 0h' that is wider
+            # than the tolerance shows only at such offsets
+            j = rng.randint(1, 5399998) + rng.choice([0.5, 0.5, 0.5, 0.0]) + rng.choice([1.0, 1.0, -1.0]) * 10.0 ** rng.uniform(-9.5, -3.0)
         elif r < 0.6: j = float(rng.randint(0, 5400000))
         elif r < 0.7: j = rng.randint(0, 5399999) + 0.5
         elif r < 0.8: j = math.nextafter(rng.randint(1, 5399999) + 0.5, rng.choice([0.0, 1e9]))
@@ -398,7 +402,7 @@ def search(rng, tier, deep):
     stats = {"evaluations": n, "distinct_nontrivial": nontriv + k,
              "rule": ("every clause of the property text on every valid civil date of %s (weekday vs day count and vs the proleptic "
                       "Gregorian weekday, within-day constancy, day of year both ways vs the JDE difference, 31 Dec vs the leap rule, "
-                      "fractional year floor/monotone, leap, MJD); mean/apparent sidereal time at %d JDE in [0, 5.4e6] (uniform, integers, "
+                      "fractional year floor/monotone, leap, MJD); mean/apparent sidereal time at %d JDE in [0, 5.4e6] (uniform, log-uniform offsets 3e-10 .. 1e-3 day from 0h/12h UT, integers, "
                       "half-integers, +-1 ulp) vs the exact rational IAU 1982 value mod 1, rate over 0.25 d and 1 d, equation of the equinoxes")
                      % ("ALL years -4712..6000" if full else "%d sampled/boundary years" % len(years), 1500 if not full else 20000),
              "samples": [{"input": [1582, 12, 31], "checked": "dow == (jdn+1)%7 == Gregorian weekday; get_doy == 355; doy2date(1582,355) == (1582,12,31); year() in [1582,1583)"},
